@@ -2,7 +2,7 @@
 import os, sys, json, random, time
 from vlib import *
 sys.path.insert(0, os.path.join(ROOT, 'translator'))
-import bytes_delegation
+import bytes_delegation, async_transport
 import transport_lib as T
 
 PROP = 'C04'
@@ -53,11 +53,15 @@ def run_check(tier, seed):
         table = bytes_delegation.generate(REPO)
     except bytes_delegation.TranslateError as ex:
         broken.append({'kind': 'translator', 'item': 'translator/bytes_delegation.py', 'error': str(ex)})
+    try:
+        async_transport.generate(REPO)
+    except async_transport.TranslateError as ex:
+        broken.append({'kind': 'translator', 'item': 'translator/async_transport.py', 'error': str(ex)})
     # 2. Coq
     audit = std_audit(ev, PROP, broken)
     if tier == 'thorough' and audit['ok']: T.coqchk(PROP, ev, broken)
     # 3. harness
-    ok, out, bindir = cargo_build(['transport'])
+    ok, out, bindir = cargo_build(['transport'], features=['async-io'])
     if not ok:
         broken.append({'kind': 'harness-build', 'log': out[-3000:]})
         ev.cov['rule'] = 'harness did not build'; ev.cov['samples'] = [{'note': 'no run'}]
@@ -88,7 +92,7 @@ def run_check(tier, seed):
         if coq_ok: ev.cov['model_vs_impl_virtio'] = coq_compare('c04_v', exprs, vtxt, broken, 'Model/Transport.v vrun vs Reader/VirtioFsWriter', spec_bad)
 
     # ---- fusedev writer + fuse-buffer reader
-    fcases = [T.gen_fcase(rng, protocol_only=(i % 3 != 0)) for i in range(nf)] + [T.gen_frcase(rng) for _ in range(nfr)]
+    fcases = [T.gen_fcase(rng, protocol_only=(i % 3 != 0)) for i in range(nf)] + [T.gen_fcase_over(rng) for _ in range(6)] + [T.gen_frcase(rng) for _ in range(nfr)]
     ftxt = [T.case_text_f(c) for c in fcases]
     outs, err = T.run_harness(bindir, 'fusedev', ftxt, 'c04')
     if err: broken.append({'kind': 'harness-run', 'log': err})
@@ -148,7 +152,7 @@ def run_check(tier, seed):
 def replay(path):
     """re-run the failing inputs of a replay file on the current tree and print what the implementation does"""
     obj = json.load(open(path))
-    ok, out, bindir = cargo_build(['transport'])
+    ok, out, bindir = cargo_build(['transport'], features=['async-io'])
     if not ok: print(out[-2000:]); return 2
     rc = 0
     for f in obj.get('failing', []) + [b for b in obj.get('broken', []) if b.get('case')]:
